@@ -468,7 +468,8 @@ pub fn exec_line(line: &str) -> String {
         "ed25519" => crate::wrapped::exec_ed25519(&op, &a).or_else(|| exec::<frost_ed25519::Ed25519Sha512>(&op, &a)),
         "ed448" => crate::wrapped::exec_ed448(&op, &a).or_else(|| exec::<frost_ed448::Ed448Shake256>(&op, &a)),
         "p256" => crate::wrapped::exec_p256(&op, &a).or_else(|| exec::<frost_p256::P256Sha256>(&op, &a)),
-        "ristretto255" => crate::wrapped::exec_ristretto255(&op, &a)
+        "ristretto255" => crate::wrapped::exec_ristretto255_rerandomized(&op, &a)
+            .or_else(|| crate::wrapped::exec_ristretto255(&op, &a))
             .or_else(|| exec::<frost_ristretto255::Ristretto255Sha512>(&op, &a)),
         "secp256k1" => {
             crate::wrapped::exec_secp256k1(&op, &a).or_else(|| exec::<frost_secp256k1::Secp256K1Sha256>(&op, &a))
